@@ -81,9 +81,10 @@ def sqlite_three_valued(db, q, nrows):
 
 
 # known classes of failing inputs (keys of proposed known findings); everything else is keyed by its own minimal expression
-def classify(e, form, decompiler_changed_meaning):
-    """canonical key of a minimal failing expression (None: no known class)"""
-    def has(pred): return any(pred(s) for s in Q.subexprs(e))
+def classify(e, form, decompiler_changed_meaning, tex=None):
+    """canonical key of a minimal failing expression (None: no known class).  `tex`: the expression the decompiler hands to the
+    translator in the generator / lambda forms (e.g. `not (x in s)` arrives as `x not in s`)"""
+    def has(pred, x=None): return any(pred(s) for s in Q.subexprs(x if x is not None else e))
     if form in ('generator', 'lambda') and decompiler_changed_meaning:
         # the expression the decompiler hands to the translator reads differently from the source (C03's territory, reaches C01 too)
         def not_with_andor(t):
@@ -91,21 +92,21 @@ def classify(e, form, decompiler_changed_meaning):
             return 'not' in ks and ('and' in ks or 'or' in ks)
         if has(lambda s: s[0] == 'ite' and not_with_andor(s[1])): return 'decompiler-ifexp-test-not-with-and-or'
         if has(lambda s: s[0] == 'cmp' and any(x[0] in ('and', 'or') for x in s[2:4])): return 'decompiler-and-or-used-as-value'
-        if has(lambda s: s[0] in ('and', 'or') and any(x[0] in ('int', 'str', 'bool', 'param') for x in s[1:3])): return 'decompiler-and-or-with-constant-operand'
+        if has(lambda s: (s[0] in ('and', 'or') and any(x[0] in ('int', 'str', 'bool', 'param') for x in s[1:3]))
+               or (s[0] == 'ite' and any(x[0] in ('int', 'str', 'bool', 'param') for x in s[2:4]))): return 'decompiler-constant-in-boolean-context'
         return None
-    if form == 'filter' and Q.is_value(e) and Q.static_type(e) != 'bool':
-        return 'filter-lambda-value-not-truth-tested'
-    if has(lambda s: s[0] == 'not' and s[1][0] in ('and', 'or') and not Q.exact(s[1])):
-        return 'not-over-and-or-with-nullable-truth-test'
-    if has(lambda s: s[0] == 'like' and s[2] and not Q.never_null(s[4])):
-        return 'not-in-nullable-string-selects-null'
-    if has(lambda s: s[0] == 'cmp' and any(not Q.is_value(x) and x[0] != 'none' for x in s[2:4])):
-        return 'comparison-operand-is-a-condition-unparenthesized'
+    subj = tex if (tex is not None and form in ('generator', 'lambda')) else e
     if has(lambda s: s[0] == 'cmp' and s[2][0] != 'none' and s[3][0] != 'none' and Q.is_value(s[2]) and Q.is_value(s[3])
-           and (Q.static_type(s[2]) == 'str') != (Q.static_type(s[3]) == 'str')):
+           and (Q.static_type(s[2]) == 'str') != (Q.static_type(s[3]) == 'str'), subj):
         return 'int-compared-with-str-affinity'
-    if has(lambda s: s[0] == 'in' and Q.is_value(s[2]) and any(isinstance(i, str) != (Q.static_type(s[2]) == 'str') for i in s[3])):
+    if has(lambda s: s[0] == 'in' and Q.is_value(s[2]) and any(isinstance(i, str) != (Q.static_type(s[2]) == 'str') for i in s[3]), subj):
         return 'int-compared-with-str-affinity'
+    if has(lambda s: s[0] == 'not' and s[1][0] in ('and', 'or') and not Q.exact(s[1]), subj):
+        return 'not-over-and-or-with-nullable-truth-test'
+    if has(lambda s: s[0] == 'like' and s[2] and not Q.never_null(s[4]), subj):
+        return 'not-in-nullable-string-selects-null'
+    if has(lambda s: s[0] == 'cmp' and any(not Q.is_value(x) and x[0] != 'none' for x in s[2:4]), subj):
+        return 'comparison-operand-is-a-condition-unparenthesized'
     return None
 
 
@@ -229,24 +230,26 @@ def report_violation(ctx, db, E, rows, e, params, form, got, expected):
     def failing(x):
         try: return rows_of(E, x, params, form) != exp_of(x)
         except Exception: return False
+    def tex_of(x):
+        if form not in ('generator', 'lambda'): return None
+        try: return Forms(E, Q.src(x), params).decompiled(form)
+        except Exception: return None
     def dec_changed(x):
-        if form not in ('generator', 'lambda'): return False
-        try:
-            tex = Forms(E, Q.src(x), params).decompiled(form)
-            return any(Q.as_k(Q.py_eval(tex, r, params)) != Q.as_k(Q.py_eval(x, r, params)) for r in rows)
-        except Exception:
-            return False
-    cls0 = classify(e, form, dec_changed(e))
+        tex = tex_of(x)
+        if tex is None: return False
+        return any(Q.as_k(Q.py_eval(tex, r, params)) != Q.as_k(Q.py_eval(x, r, params)) for r in rows)
+    def cls_of(x): return classify(x, form, dec_changed(x), tex_of(x))
+    cls0 = cls_of(e)
+    def valid(x): return all(Q.bool_valued(o) for s_ in Q.subexprs(x) if s_[0] == 'cmp' for o in s_[2:4] if not Q.is_value(o) and o[0] != 'none')
     # shrink inside the class of the original failure (otherwise the shrinker drifts into other defects)
-    small = Q.shrink(e, (lambda x: failing(x) and classify(x, form, dec_changed(x)) == cls0) if cls0 else failing)
+    small = Q.shrink(e, (lambda x: valid(x) and failing(x) and cls_of(x) == cls0) if cls0 else (lambda x: valid(x) and failing(x)))
     try: g = rows_of(E, small, params, form)
     except Exception as ex: g = 'raised ' + type(ex).__name__
     exp = exp_of(small)
-    string_ok = dec_changed(small)
     wrong = sorted(set(g) ^ set(exp)) if isinstance(g, list) else []
     witness = rows[wrong[0] - 1] if wrong else None
     used = sorted({s[1] for s in Q.subexprs(small) if s[0] == 'attr'})
-    key = classify(small, form, string_ok) or ('expr:%s:%s' % (form, json.dumps(Q.to_json(Q.canon_atoms(small)))))
+    key = cls_of(small) or ('expr:%s:%s' % (form, json.dumps(Q.to_json(Q.canon_atoms(small)))))
     ctx.count('violations-before-dedup'); ctx.count('violation-class:' + (key if not key.startswith('expr:') else 'unclassified'))
     ctx.violation('rows returned differ from Python evaluation of the same expression (%s form)' % form,
                   {'query': QUERY_TEXT[form] % Q.src(small), 'form': form, 'params': {k: v for k, v in params.items() if any(x == ('param', k) for x in Q.subexprs(small))},
@@ -272,7 +275,7 @@ WITNESSES = [
     ('decompiler-ifexp-test-not-with-and-or', 'lambda', ('cmp', '==', ('ite', ('not', ('or', ('attr', 'b'), ('attr', 'nb'))), ('attr', 'a'), ('attr', 'c')), ('int', 1)),
      [{'b': False, 'nb': True, 'a': 1, 'c': 2}, {'b': False, 'nb': False, 'a': 1, 'c': 2}, {'b': True, 'nb': False, 'a': 2, 'c': 1}]),
     ('decompiler-and-or-used-as-value', 'generator', ('cmp', '==', ('attr', 'b'), ('and', ('attr', 'nb'), ('attr', 'b'))), [{'b': False, 'nb': True}, {'b': True, 'nb': False}, {'b': False, 'nb': False}]),
-    ('decompiler-and-or-with-constant-operand', 'generator', ('or', ('attr', 't'), ('int', 1)), [{'t': 'x'}]),
+    ('decompiler-constant-in-boolean-context', 'generator', ('or', ('attr', 't'), ('int', 1)), [{'t': 'x'}]),
 ]
 BASE_ROW = {'a': 0, 'c': 0, 'n': 0, 'm': 0, 'b': False, 'nb': False, 's': 'a', 't': '', 'ns': ''}
 
@@ -348,7 +351,8 @@ def run_projections(ctx, n_exprs):
                 got = [(i, v) for i, v in got]
                 if [(i, v, type(v) is bool) for i, v in got] != [(i, v, type(v) is bool) for i, v in expected]:
                     bad = [(g, x) for g, x in zip(got, expected) if g != x or (type(g[1]) is bool) != (type(x[1]) is bool)][:2]
-                    key = 'bool-arithmetic-typed-bool' if any(x[0] in ('bin', 'neg', 'abs') and all(Q.static_type(y) == 'bool' for y in x[1:] if isinstance(y, tuple)) for x in Q.subexprs(e)) \
+                    dch = tex is not None and form == 'generator' and any(Q.as_v(Q.py_eval(tex, r, params)) != Q.as_v(Q.py_eval(e, r, params)) for r in rows)
+                    key = classify(e, form, dch, tex) or 'bool-arithmetic-typed-bool' if classify(e, form, dch, tex) or any(x[0] in ('bin', 'neg', 'abs') and all(Q.static_type(y) == 'bool' for y in x[1:] if isinstance(y, tuple)) for x in Q.subexprs(e)) \
                         else 'proj:%s:%s' % (form, json.dumps(Q.to_json(Q.canon_atoms(e))))
                     ctx.violation('values returned by a projection differ from Python evaluation (%s form)' % form,
                                   {'query': 'select((e.id, %s) for e in E)' % s, 'form': form, 'row': rows[bad[0][1][0] - 1] if bad else None},
